@@ -545,7 +545,14 @@ fn decode_hosts_eq(t: &mut Tape) -> HostsEq {
     let (h, reg) = gen::host(t);
     let host = match t.pick(8) {
         0 => reg.clone(),
-        1 => format!("www.{}", reg),
+        1 if t.chance(1, 2) => format!("www.{}", reg),
+        // host names are case-insensitive, in both formats
+        1 => match t.pick(4) {
+            0 => format!("WWW.{}", reg),
+            1 => format!("Www.{}", reg.to_uppercase()),
+            2 => reg.to_uppercase(),
+            _ => format!("wWw.Sub.{}", reg),
+        },
         2 => "bücher.example.de".to_string(),
         3 => "пример.рф".to_string(),
         4 => format!("{}.", reg).trim_end_matches('.').to_string(),
